@@ -60,6 +60,12 @@ func genC15(seed uint64, idx int, tier string) interface{} {
 	}
 	ir := r.Fork(2)
 	switch {
+	case pl.CLI != "" && r.Bool(0.25): // more than one pipe buffer (64 KiB) of stdin
+		var big []byte
+		for target := r.Range(70000, 200000); len(big) < target; {
+			big = append(big, GenInput(ir, v, 30)...)
+		}
+		pl.Input = big
 	case r.Bool(0.04):
 		pl.Input = GenLongInput(ir, v)
 	case r.Bool(0.5):
